@@ -395,16 +395,28 @@ func (lr *lifeRun) observe(where string, final bool) {
 			ids = append(ids, id)
 		}
 		sort.Ints(ids)
-		for _, id := range ids {
-			c := lr.clients[id]
-			lr.ctl.mu.Lock()
-			registered := lr.ctl.reg[c.local]
-			lr.ctl.mu.Unlock()
-			if c.dialOK && !c.closed && registered && pingOn(c.conn, 500*time.Millisecond) {
-				served = append(served, id)
+		// The two sides of "the registry contains exactly the connections being served" are sampled one after the other
+		// while connection goroutines may be moving (a client just released from its gate registers within microseconds):
+		// a sample that disagrees is taken again a few times, so that only a disagreement that persists is reported.
+		var conns []int
+		for attempt := 0; ; attempt++ {
+			served = served[:0]
+			for _, id := range ids {
+				c := lr.clients[id]
+				lr.ctl.mu.Lock()
+				registered := lr.ctl.reg[c.local]
+				lr.ctl.mu.Unlock()
+				if c.dialOK && !c.closed && registered && pingOn(c.conn, 500*time.Millisecond) {
+					served = append(served, id)
+				}
 			}
+			conns = lr.registryIDs()
+			if fmt.Sprint(conns) == fmt.Sprint(served) || attempt >= 3 || parkedAny {
+				break
+			}
+			time.Sleep(30 * time.Millisecond)
 		}
-		lr.rec.Emit(Ev{"ev": "obs", "kind": "registry", "conns": lr.registryIDs(), "served": served, "parked": parkedAny, "where": where, "phase": lr.phase})
+		lr.rec.Emit(Ev{"ev": "obs", "kind": "registry", "conns": conns, "served": served, "parked": parkedAny, "where": where, "phase": lr.phase})
 	}
 	if lr.phase == "stopped" {
 		for _, k := range kinds {
